@@ -23,7 +23,7 @@ RULE = ("Hypothesis: general graphs x {all_classes_mode, target_classes} x switc
         "shape has exactly one path.  Non-trivial: the document has >=1 shape reference and (a removed shape, a prefix collision, "
         "a custom namespace or Turtle-declared prefixes); distinct by SHA-1 of the case.")
 ASSUMPTIONS = c01.ASSUMPTIONS + ["rdflib 6.0.2 Turtle parser as the SHACL syntax oracle"]
-BUDGET = {"quick": {"examples": 12000, "wall": 150}, "thorough": {"examples": 400000, "wall": 5400}}
+BUDGET = {"quick": {"examples": 12000, "wall": 150}, "thorough": {"examples": 150000, "wall": 900}}
 FLOORS = {"nontrivial": 0.15, "shacl": 0.12, "shexc": 0.3, "shape-map-chain": 0.1, "cascade": 0.01}
 SH = "http://www.w3.org/ns/shacl#"
 NS_DICTS = [
@@ -68,6 +68,9 @@ def chain_case(draw):
     cfg["instances_report_mode"] = "mixed"
     if draw(st.integers(0, 3)) == 0:
         cfg["disable_or_statements"] = False
+    if draw(st.integers(0, 2)) == 0:
+        # the empty tail is KEPT: it stays a defined shape (ShExC) / a declared sh:NodeShape (SHACL) that the others refer to
+        cfg["remove_empty_shapes"] = False
     return {"g": {"triples": triples, "classes": [], "inst_prop": RDF_TYPE}, "cfg": cfg, "items": items,
             "thr": draw(st.sampled_from([0, 0, 0.5, 0.6, 1])), "input": "nt", "format": draw(st.sampled_from(["ShEx", "ShEx", "Shacl"])),
             "with_all_classes": False}
